@@ -18,7 +18,7 @@ python3 - $OUT/with_patch.log > $OUT/with_patch.summary <<'PY'
 import json,re,sys
 out=open(sys.argv[1],errors='replace').read()
 base=set(json.load(open('/root/.vp/BASELINE.json'))['stable_pass'])
-ok=set(m.group(1) for m in re.finditer(r'^test (\S+) \.\.\. ok',out,re.M))
+ok=set(m.group(1) for m in re.finditer(r'^test (\S+)(?: - should panic)? \.\.\. ok',out,re.M))
 failed=set(m.group(1) for m in re.finditer(r'^test (\S+) \.\.\. FAILED',out,re.M))
 missing=[b for b in base if not any(b.endswith('::'+n) for n in ok)]
 print(json.dumps({"baseline":len(base),"baseline_passing_with_patch":len(base)-len(missing),"missing":missing[:10]}))
